@@ -32,6 +32,8 @@ def main(tier, replay=None):
     c.log("proofs:", "ok" if proofs_ok else c.proof_break)
     counters = PC.new_counters()
     n = 260 if tier == "quick" else 2200
+    if c.escalated:   # a modelled Go function changed since the pin (c.drift): look harder, no verdict from drift alone
+        n *= 3
     stats_all = []
     nbad = 0
     nhist = 0
